@@ -124,13 +124,24 @@ fn exact_3d(d: &mut Draw) -> Outcome {
     pass(if nt { "generic" } else { "degenerate" }, nt)
 }
 
+/// a length: ordinary, anywhere the squares stay finite, or 1 up to a relative 1e-12 .. 1e-3 ("already normalised", nearly)
+fn f_len(d: &mut Draw, wide: bool) -> f64 {
+    if wide {
+        d.f64_log(1e-140, 1e140)
+    } else if d.chance(1, 4) {
+        1.0 + d.f64_slog(1e-12, 1e-3)
+    } else {
+        d.f64_log(1e-2, 1e2)
+    }
+}
+
 fn f64_3d(d: &mut Draw) -> Outcome {
     let eye = Point3::from(f_vec3(d, -50.0, 50.0));
     let dn = f_unit3(d);
     // lengths over many orders of magnitude (as far as |dir|^2 and |up|^2 stay finite): the constructors
     // normalise each input before combining them, so the statement is scale-free
     let wide = d.chance(1, 3);
-    let len = if wide { d.f64_log(1e-140, 1e140) } else { d.f64_log(1e-2, 1e2) };
+    let len = f_len(d, wide);
     let dir = Vector3::from(scale3(&dn, len));
     // up at least 0.05 rad away from +-dir
     let ang = d.f64_in(0.05, std::f64::consts::PI - 0.05);
@@ -141,7 +152,7 @@ fn f64_3d(d: &mut Draw) -> Outcome {
         let phi = d.f64_in(0.0, 2.0 * std::f64::consts::PI);
         [a[0] * phi.cos() + b[0] * phi.sin(), a[1] * phi.cos() + b[1] * phi.sin(), a[2] * phi.cos() + b[2] * phi.sin()]
     };
-    let ul = if wide { d.f64_log(1e-140, 1e140) } else { d.f64_log(1e-2, 1e2) };
+    let ul = f_len(d, wide);
     let up = Vector3::from([
         ul * (dn[0] * ang.cos() + p[0] * ang.sin()),
         ul * (dn[1] * ang.cos() + p[1] * ang.sin()),
@@ -194,10 +205,10 @@ fn f64_2d(d: &mut Draw) -> Outcome {
     // lengths over many orders of magnitude (as far as |dir|^2 and |up|^2 stay finite): the constructors
     // normalise each input before combining them, so the statement is scale-free
     let wide = d.chance(1, 3);
-    let len = if wide { d.f64_log(1e-140, 1e140) } else { d.f64_log(1e-2, 1e2) };
+    let len = f_len(d, wide);
     let dir = Vector2::new(len * phi.cos(), len * phi.sin());
     let off = d.f64_in(0.05, std::f64::consts::PI - 0.05) * if d.bool() { 1.0 } else { -1.0 };
-    let ul = d.f64_log(1e-2, 1e2);
+    let ul = f_len(d, false);
     let up = Vector2::new(ul * (phi + off).cos(), ul * (phi + off).sin());
     d.note("dir", &dir);
     d.note("up", &up);
